@@ -549,6 +549,8 @@ def r4(ctx, chk):
 
 def run(ctx, chk):
     r4(ctx, chk)
+    from .c11 import first_match_rule
+    first_match_rule(ctx, chk, "C12.R5")
     awareness_table(ctx, chk, "C12.R1")
     chk.floor("C12.R1", chk.instances.get("C12.R1", 0), 15, "awareness truth-table rows")
     r2(ctx, chk)
